@@ -124,6 +124,7 @@ func c09(c *Ctx) {
 				return v.T("single") && c.P.Arg(s.Instr, 0) == "nil"
 			})
 		}
+		c09VerifyParked(c, "R2", fn, r)
 		// R3 registration voter-only
 		notify := c.Field("R3", "followerReplication", "notify")
 		if notify != nil {
@@ -305,5 +306,47 @@ func c09R7(c *Ctx, rule string) {
 				"before the "+s.what+" request is sent, the replication routine captures the set of verify futures this request may vote for; futures registered later are only voted on by later requests (VerifyLeader then means: a majority answered a request sent after the call)",
 				func(v engine.View) bool { return v.Seen("captured") })
 		}
+	}
+}
+
+// c09VerifyParked: a verify future that is NOT answered on the spot is left to
+// the followers' acknowledgements, which can only complete it when somebody
+// else's vote is needed: the fall-through (registration with the replication
+// routines) is reached only with quorumSize != 1. With a sole voter (plus
+// non-voters, which are never asked) nobody would ever answer it.
+func c09VerifyParked(c *Ctx, rule string, fn *ssa.Function, r *engine.Result) {
+	notify := c.P.LookupField("followerReplication", "notify")
+	n := 0
+	if notify != nil {
+		for _, s := range c.P.MapWrites(notify) {
+			if s.Fn != fn {
+				continue
+			}
+			if _, ok := s.Instr.(*ssa.MapUpdate); !ok {
+				continue
+			}
+			n++
+			c.RequireAt(r, rule, "verifyLeader:parked-only-when-others-must-vote", s.Instr, "the future is handed to the replication routines only when the voter quorum is not 1 (a sole voter answers on the spot; nobody else would)", func(v engine.View) bool { return v.F("single") })
+		}
+	}
+	for i, ret := range engine.RawReturnsOf(fn) {
+		c.RequireAt(r, rule, fmt.Sprintf("verifyLeader:return#%d-answered-or-parked", i+1), ret, "verifyLeader returns either having answered (quorum 1) or with quorum != 1 established", func(v engine.View) bool { return !v.Unseen("single") })
+	}
+	if n == 0 {
+		c.Bad(rule, "verifyLeader:registration", c.P.Pos(fn.Pos()), "a registration of the future with the replication routines", "none found")
+	}
+}
+
+// c09R2Verify exposes the verifyLeader half of R2 to other properties (C17:
+// a parked future that nobody will answer never resolves).
+func c09R2Verify(c *Ctx, rule string) {
+	if fn := c.Fn(rule, "(*Raft).verifyLeader"); fn != nil {
+		r := c.Run(&engine.Automaton{Fn: fn, Tracks: []engine.Track{engine.PredRel("single", "p1.quorumSize", "1", engine.EQ)}})
+		for _, s := range c.P.CallsIn(fn, engine.Is("(*deferError).respond")) {
+			c.RequireAt(r, rule, "verifyLeader:direct-answer", s.Instr, "answered directly (nil) only when the voter quorum is 1", func(v engine.View) bool {
+				return v.T("single") && c.P.Arg(s.Instr, 0) == "nil"
+			})
+		}
+		c09VerifyParked(c, rule, fn, r)
 	}
 }
